@@ -639,6 +639,231 @@ def uvValidCCW [Sub α] [Mul α] [OfNat α 0] [LT α] [DecidableLT α] [LE α] [
 def uvValid [Sub α] [Mul α] [OfNat α 0] [LT α] [DecidableLT α] [LE α] [DecidableLE α] (lo hi : α) (ts : List (Tri2 α)) : Bool :=
   uvValidCCW lo hi ts || uvValidCCW lo hi (ts.map Tri2.flip)
 
+/-! ## 10. `MapFn` outside the triangulation: the nearest triangle
+(`model2d.Triangle.genericSDF`, `model2d.Rect.genericSDF`, `newTri2dLookup`, `tri2dLookup.findNearest`) -/
+
+def dot2 [Add α] [Mul α] (a b : V2 α) : α := a.x * b.x + a.y * b.y
+
+/-- `a.SquaredDist(b)`. -/
+def dist2 [Add α] [Sub α] [Mul α] (a b : V2 α) : α := dot2 (a.sub b) (a.sub b)
+
+/-- One iteration of the edge loop of `Triangle.genericSDF` for the segment `p1 → p2`:
+`dot = v·(c − p1)/|v|²`; the closest point is `p1` (`dot ≤ 0`), `p2` (`dot ≥ 1`) or `p1 + dot·v`.
+Returns the squared distance of that point from `c` and its weights on `(p1, p2)`. -/
+def segNearest [Add α] [Sub α] [Mul α] [Div α] [OfNat α 0] [OfNat α 1] [LE α] [DecidableLE α]
+    (p1 p2 c : V2 α) : α × (α × α) :=
+  let v := p2.sub p1
+  let d := dot2 v (c.sub p1) / dot2 v v
+  if d ≤ 0 then (dist2 p1 c, (1, 0))
+  else if 1 ≤ d then (dist2 p2 c, (0, 1))
+  else (dist2 (p1.add (v.scale d)) c, (1 - d, d))
+
+/-- The point with weights `w` on the segment. -/
+def segPoint [Add α] [Mul α] (p1 p2 : V2 α) (w : α × α) : V2 α := (p1.scale w.1).add (p2.scale w.2)
+
+/-- `Triangle.BarycentricSDF` for a query outside the triangle: the squared distance of the
+closest boundary point (first of the three edges `a→b`, `b→c`, `c→a` that is strictly closer
+wins) and its barycentric coordinates (`bary[e] = 1 − dot`, `bary[e+1] = dot`, or 1 at a corner). -/
+def triNearest [Add α] [Sub α] [Mul α] [Div α] [OfNat α 0] [OfNat α 1] [LE α] [DecidableLE α] [LT α] [DecidableLT α]
+    (t : Tri2 α) (c : V2 α) : α × (α × α × α) :=
+  let e0 := segNearest t.a t.b c
+  let e1 := segNearest t.b t.c c
+  let e2 := segNearest t.c t.a c
+  let m : α × (α × α × α) := (e0.1, (e0.2.1, e0.2.2, 0))
+  let m := if e1.1 < m.1 then (e1.1, (0, e1.2.1, e1.2.2)) else m
+  if e2.1 < m.1 then (e2.1, (e2.2.2, 0, e2.2.1)) else m
+
+/-- `Rect.Contains`. -/
+def rectContains [LT α] [DecidableLT α] (r : Rect α) (c : V2 α) : Bool :=
+  !decide (c.x < r.lo.x) && !decide (c.y < r.lo.y) && !decide (r.hi.x < c.x) && !decide (r.hi.y < c.y)
+
+/-- `math.Max(math.Min(x, hi), lo)`. -/
+def clamp1 [LT α] [DecidableLT α] (lo hi x : α) : α :=
+  let m := if hi < x then hi else x
+  if m < lo then lo else m
+
+def minOf [LT α] [DecidableLT α] (a b : α) : α := if b < a then b else a
+def maxOf [LT α] [DecidableLT α] (a b : α) : α := if a < b then b else a
+
+/-- `−Rect.SDF(c)·|Rect.SDF(c)|`: the squared distance from `c` to the rectangle when `c` is
+outside, minus the squared distance to the nearest side when it is inside.  `findNearest`
+compares the signed distances of the two children and the negated best distance so far; `s ↦ s·|s|`
+is strictly increasing, so these comparisons are the comparisons of these values and of the squared
+best distance. -/
+def rectLB [Add α] [Sub α] [Mul α] [Neg α] [LT α] [DecidableLT α] (r : Rect α) (c : V2 α) : α :=
+  let d := minOf (minOf (c.x - r.lo.x) (r.hi.x - c.x)) (minOf (c.y - r.lo.y) (r.hi.y - c.y))
+  if rectContains r c then -(d * d)
+  else dist2 c ⟨clamp1 r.lo.x r.hi.x c.x, clamp1 r.lo.y r.hi.y c.y⟩
+
+/-- `BoundsRect(triangle)`. -/
+def triBounds [LT α] [DecidableLT α] (t : Tri2 α) : Rect α :=
+  ⟨⟨min3 t.a.x t.b.x t.c.x, min3 t.a.y t.b.y t.c.y⟩, ⟨max3 t.a.x t.b.x t.c.x, max3 t.a.y t.b.y t.c.y⟩⟩
+
+/-- `NewRect(ch1.Min().Min(ch2.Min()), ch1.Max().Max(ch2.Max()))`. -/
+def Rect.join [LT α] [DecidableLT α] (a b : Rect α) : Rect α :=
+  ⟨⟨minOf a.lo.x b.lo.x, minOf a.lo.y b.lo.y⟩, ⟨maxOf a.hi.x b.hi.x, maxOf a.hi.y b.hi.y⟩⟩
+
 end Num
+
+/-! ### The bounding hierarchy and its nearest-item search (generic in items, bounds and keys) -/
+
+/-- `tri2dLookup`: a leaf holds one item, every node (leaves too) has a bound. -/
+inductive NTree (ι β : Type) where
+  | leaf (b : β) (i : ι)
+  | node (b : β) (l r : NTree ι β)
+
+namespace NTree
+variable {ι β K : Type}
+
+def bound : NTree ι β → β
+  | leaf b _ => b
+  | node b _ _ => b
+
+def items : NTree ι β → List ι
+  | leaf _ i => [i]
+  | node _ l r => items l ++ items r
+
+end NTree
+
+/-- `newTri2dLookup`: one item → leaf; otherwise split the list at `len/2`, build both halves and
+join their bounds.  `none` for the empty list (the Go code does not terminate on it). -/
+def buildTree {ι β : Type} (bnd : ι → β) (join : β → β → β) : Nat → List ι → Option (NTree ι β)
+  | _, [] => none
+  | _, [i] => some (.leaf (bnd i) i)
+  | 0, _ :: _ :: _ => none
+  | f + 1, i :: j :: l =>
+    let all := i :: j :: l
+    let k := all.length / 2
+    match buildTree bnd join f (all.take k), buildTree bnd join f (all.drop k) with
+    | some a, some b => some (.node (join a.bound b.bound) a b)
+    | _, _ => none
+
+/-- The running answer of `findNearest`: the best item and its key (`none` = `+Inf`, no item). -/
+abbrev Best (ι K : Type) := Option (ι × K)
+
+/-- The leaf case: `if sdf > -*distBound { … }`, i.e. the new item wins only when strictly closer. -/
+def stepBest {ι K : Type} [LT K] [DecidableLT K] (key : ι → K) (s : Best ι K) (i : ι) : Best ι K :=
+  match s with
+  | none => some (i, key i)
+  | some (j, d) => if key i < d then some (i, key i) else some (j, d)
+
+/-- `!(d < -*distBound)`: a child whose bound value `b` exceeds the best key so far is skipped. -/
+def admitB {ι K : Type} [LT K] [DecidableLT K] (b : K) (s : Best ι K) : Bool :=
+  match s with
+  | none => true
+  | some (_, d) => !decide (d < b)
+
+/-- `tri2dLookup.findNearest`: at an inner node take the child with the smaller bound value first
+(`if ds[0] < ds[1] { swap }` on signed distances, i.e. the second child first iff its bound value is
+strictly smaller), and `break` at the first child whose bound value exceeds the best key so far. -/
+def nearestGo {ι β K : Type} [LT K] [DecidableLT K] (lb : β → K) (key : ι → K) : NTree ι β → Best ι K → Best ι K
+  | .leaf _ i, s => stepBest key s i
+  | .node _ l r, s =>
+    if lb r.bound < lb l.bound then
+      if admitB (lb r.bound) s then
+        let s1 := nearestGo lb key r s
+        if admitB (lb l.bound) s1 then nearestGo lb key l s1 else s1
+      else s
+    else
+      if admitB (lb l.bound) s then
+        let s1 := nearestGo lb key l s
+        if admitB (lb r.bound) s1 then nearestGo lb key r s1 else s1
+      else s
+
+/-- Linear scan: the first item with the smallest key. -/
+def scanBest {ι K : Type} [LT K] [DecidableLT K] (key : ι → K) (l : List ι) : Best ι K := l.foldl (stepBest key) none
+
+section Num2
+variable {α : Type}
+
+/-- `tri2dLookup.Find` behind `MapFn`: the first triangle (in the order given to `newTri2dLookup`)
+that contains `p`, else the nearest one by `findNearest`; with the barycentric coordinates. -/
+def findUV [Add α] [Sub α] [Mul α] [Div α] [Neg α] [OfNat α 0] [OfNat α 1] [LT α] [DecidableLT α] [LE α] [DecidableLE α]
+    (ts : List (Tri2 α)) (p : V2 α) : Option (Nat × (α × α × α)) :=
+  match findContains ts p with
+  | some r => some r
+  | none =>
+    match buildTree (fun (it : Tri2 α × Nat) => triBounds it.1) Rect.join ts.length ts.zipIdx with
+    | none => none
+    | some tree =>
+      (nearestGo (fun r => rectLB r p) (fun (it : Tri2 α × Nat) => (triNearest it.1 p).1) tree none).map
+        fun r => (r.1.2, (triNearest r.1.1 p).2)
+
+end Num2
+
+/-! ## 11. The result map of `floater97`; histories of solves over ONE boundary map
+
+Go `*CoordMap`s are pointers into a heap of maps: the model keeps the heap explicit so that
+"the solver does not modify the caller's boundary map" is a statement (a frame property), not a
+tautology. -/
+
+/-- A `CoordMap` as an association list over vertex ids (`Store` replaces or appends). -/
+abbrev AMap (β : Type) := List (Nat × β)
+
+def AMap.load {β : Type} : AMap β → Nat → Option β
+  | [], _ => none
+  | (k', v) :: r, k => if k' = k then some v else AMap.load r k
+
+def AMap.store {β : Type} : AMap β → Nat → β → AMap β
+  | [], k, v => [(k, v)]
+  | (k', v') :: r, k, v => if k' = k then (k, v) :: r else (k', v') :: AMap.store r k v
+
+/-- The heap: pointer `r` is the `r`-th map. -/
+abbrev Heap (β : Type) := List (AMap β)
+
+def Heap.get {β : Type} (h : Heap β) (r : Nat) : AMap β := h.getD r []
+
+/-- `NewCoordMap()`: a fresh empty map; its pointer is the old heap size. -/
+def Heap.alloc {β : Type} (h : Heap β) : Heap β × Nat := (h ++ [[]], h.length)
+
+/-- `(*r).Store(k, v)`. -/
+def Heap.store {β : Type} : Heap β → Nat → Nat → β → Heap β
+  | [], _, _, _ => []
+  | m :: h, 0, k, v => m.store k v :: h
+  | m :: h, r + 1, k, v => m :: Heap.store h r k v
+
+/-- `floater97` from the solver on.  `bref` is the caller's boundary map, `verts` is
+`m.VertexSlice()`, `sol` the solved position per non-boundary vertex (an oracle: whatever the
+solver returned for these weights).  `nonBoundary` = vertices without an entry in `*bref`;
+`result := NewCoordMap()`; `boundary.Range(result.Store)`; `result.Store(nonBoundary[i], solution[i])`.
+Returns the new heap and the result pointer. -/
+def floaterStore {β : Type} (h : Heap β) (bref : Nat) (verts : List Nat) (sol : Nat → β) : Heap β × Nat :=
+  let nonB := verts.filter fun v => ((h.get bref).load v).isNone
+  let (h1, rref) := h.alloc
+  let h2 := (h1.get bref).foldl (fun h kv => h.store rref kv.1 kv.2) h1
+  let h3 := nonB.foldl (fun h v => h.store rref v (sol v)) h2
+  (h3, rref)
+
+/-- A history of solves that all receive the SAME boundary pointer (several weightings compared
+over one boundary; `Floater97` followed by `StretchMinimizingParameterization`, which itself calls
+`floater97` once per iteration): one solution oracle per solve.  Returns the final heap and the
+result pointers in order. -/
+def solveHist {β : Type} (bref : Nat) (verts : List Nat) : Heap β → List (Nat → β) → Heap β × List Nat
+  | h, [] => (h, [])
+  | h, sol :: rest =>
+    let (h1, rr) := floaterStore h bref verts sol
+    let (h2, rs) := solveHist bref verts h1 rest
+    (h2, rr :: rs)
+
+/-! ## 12. The recursion of `BuildAutomaticUVMap` -/
+
+/-- `handleDisc`: a disc is either appended to the atlas or replaced by the pieces of
+`SplitPlaneGraph`, each handled at depth + 1.  It is split only if it has more than one triangle
+and the oracle `want` says so: `canSplit` (depth below `automaticUVMapMaxRecursion`, area above the
+minimum) and boundary or final stretch above the limit, or (since `fix: 6c979e5`) the solver's
+parameterisation has a flipped or degenerate triangle — then regardless of depth and area.  `fuel`
+bounds the recursion depth; the real one is at most `automaticUVMapMaxRecursion` plus the number
+of triangles (a forced split strictly shrinks the disc). -/
+def handleDisc (split : List Tri → List (List Tri)) (want : Nat → List Tri → Bool) : Nat → Nat → List Tri → List (List Tri)
+  | 0, _, disc => [disc]
+  | f + 1, depth, disc =>
+    if decide (1 < disc.length) && want depth disc then
+      (split disc).flatMap (handleDisc split want f (depth + 1))
+    else [disc]
+
+/-- The charts of the atlas: `MeshToPlaneGraphsLimited` (`first`), then `handleDisc` on each. -/
+def atlasCharts (first split : List Tri → List (List Tri)) (want : Nat → List Tri → Bool) (fuel : Nat) (m : List Tri) :
+    List (List Tri) :=
+  (first m).flatMap (handleDisc split want fuel 0)
 
 end M3d.Param
